@@ -33,6 +33,10 @@ func (c *Ctx) ruleMapKeyOrder(rule string) {
 		return ""
 	}
 	checkLit := func(name string, info *types.Info, fl *ast.FuncLit) {
+		threeWay := false
+		if fl.Type.Results != nil && len(fl.Type.Results.List) == 1 && exprStr(fl.Type.Results.List[0].Type) == "int" {
+			threeWay = true
+		}
 		var sw ast.Stmt
 		for _, st := range fl.Body.List {
 			switch st.(type) {
@@ -71,6 +75,37 @@ func (c *Ctx) ruleMapKeyOrder(rule string) {
 				}
 			}
 			construct := name + " case " + strings.Join(labels, ",")
+			if threeWay && class != "" && class != "mixed" {
+				// three-way comparator (negative / zero / positive)
+				sub, cmpCall, explicit := false, "", false
+				for _, st := range cc.Body {
+					walk(st, func(x ast.Node) bool {
+						switch e := x.(type) {
+						case *ast.BinaryExpr:
+							if e.Op == token.SUB {
+								sub = true
+							}
+							if e.Op == token.LSS || e.Op == token.GTR || e.Op == token.EQL {
+								explicit = true
+							}
+						case *ast.CallExpr:
+							if k := calleeKey(info, e); k == "cmp.Compare" || k == "strings.Compare" || k == "bytes.Compare" {
+								cmpCall = k
+							}
+						}
+						return true
+					})
+				}
+				switch {
+				case sub:
+					R.Bad(rule, construct, P.Pos(cc), "the three-way result is computed by subtracting the keys: for keys 2^63 or more apart (or after truncation to int) the sign is wrong, the relation is cyclic rather than a total order, and the sorted order then depends on the map's random iteration order — deterministic marshaling is no longer deterministic")
+				case cmpCall != "" || explicit:
+					R.OK(rule, construct, P.Pos(cc), "three-way comparison by "+map[bool]string{true: cmpCall, false: "explicit comparisons"}[cmpCall != ""])
+				default:
+					R.Unk(rule, construct, P.Pos(cc), "three-way comparison in an unrecognised form")
+				}
+				continue
+			}
 			if class == "" || class == "mixed" || len(cc.Body) != 1 {
 				R.Unk(rule, construct, P.Pos(cc), "unrecognised key-kind case")
 				continue
@@ -118,7 +153,7 @@ func (c *Ctx) ruleMapKeyOrder(rule string) {
 		info := fi.Info()
 		found := false
 		walk(fi.Decl.Body, func(n ast.Node) bool {
-			if call, ok := n.(*ast.CallExpr); ok && calleeKey(info, call) == "sort.Slice" && len(call.Args) == 2 {
+			if call, ok := n.(*ast.CallExpr); ok && (calleeKey(info, call) == "sort.Slice" || calleeKey(info, call) == "slices.SortFunc" || calleeKey(info, call) == "slices.SortStableFunc") && len(call.Args) == 2 {
 				if fl, ok := call.Args[1].(*ast.FuncLit); ok {
 					found = true
 					checkLit(fi.Key+" comparator", info, fl)
@@ -127,7 +162,7 @@ func (c *Ctx) ruleMapKeyOrder(rule string) {
 			return true
 		})
 		if !found {
-			R.Unk(rule, fi.Key, P.Pos(fi.Decl), "sort.Slice comparator not found")
+			R.Unk(rule, fi.Key, P.Pos(fi.Decl), "sort.Slice / slices.SortFunc comparator not found")
 		}
 	}
 	// reflection path
